@@ -12,6 +12,9 @@ Stated over the statement rendering model (tied to the crate by the differential
   FOR) — for every statement without a named window.  `named_window_out_of_order`: with a named
   window the WINDOW clause comes last, after ORDER BY / LIMIT / FOR, where no grammar allows it
   (the recorded finding), shown on a concrete statement.
+* `rUpdate_eq_clauses` / `update_clause_order`, `rDelete_eq_clauses` / `delete_clause_order`, `rInsert_eq_clauses` /
+  `insert_clause_tags`: the same for UPDATE (WITH, UPDATE t, MySQL's JOIN .. ON, SET, FROM, WHERE, RETURNING,
+  ORDER BY, LIMIT), DELETE and INSERT (WITH, INSERT INTO t, source, conflict clause, RETURNING).
 * the MySQL re-routing of UPDATE: with a FROM table the condition is written once, as
   `JOIN .. ON`, and not as WHERE, and the SET columns are qualified (`mysql_update_join`); the other
   dialects write `FROM .. WHERE ..` (`other_update_from`).
@@ -126,7 +129,7 @@ theorem select_clause_order (d : Backend) (s : Select)
   -- without the window clause the tags are a sub-sequence of the grammar-ordered prefix
   have hsub' : ((selectClauses d (.mk with_ distinct selects from_ hints sample joins where_ groups having unions orders limit offset lock wn none)).map (·.1)).Sublist
       [Clause.with_, .head, .from_, .joins, .where_, .groupBy, .having, .setOps, .orderBy, .limit, .offset, .lock] := by
-    simp only [selectClauses, List.map_append, Option.isSome_none, opt, Bool.false_eq_true, if_false, List.map_nil, List.append_nil]
+    simp only [selectClauses, List.map_append, Option.isSome_none, opt, Bool.false_eq_true, if_false, List.append_nil]
     show List.Sublist _ ([Clause.with_] ++ [Clause.head] ++ [Clause.from_] ++ [Clause.joins] ++ [Clause.where_] ++ [Clause.groupBy] ++
       [Clause.having] ++ [Clause.setOps] ++ [Clause.orderBy] ++ [Clause.limit] ++ [Clause.offset] ++ [Clause.lock])
     repeat (first | exact opt_sublist _ _ _ | exact List.Sublist.refl _ | apply List.Sublist.append)
@@ -178,6 +181,104 @@ theorem enum_cast_postgres (ty : String) (e : Ex) (h : ty.endsWith "[]" = false)
 theorem mysql_values_row (rows : List (List Val)) (a : String) :
     rTRef .mysql (.valuesList rows a) = [S "(", S "VALUES "] ++ rValueRows .mysql true rows ++ [S ")", S " AS ", .id a] := by
   simp [rTRef]
+
+/-! ## UPDATE / DELETE / INSERT: clause lists -/
+
+def returningPresent (d : Backend) : Returning → Bool
+  | .none => false
+  | _ => d != .mysql
+
+theorem returning_opt (d : Backend) (r : Returning) : (if returningPresent d r then rReturning d r else []) = rReturning d r := by
+  cases r <;> cases d <;> simp [returningPresent, rReturning]
+
+/-- the clauses of an UPDATE, as the model writes them (`on`: MySQL's `JOIN .. ON` re-routing of FROM / WHERE) -/
+def updateClauses (d : Backend) : Update → List (Clause × Pieces)
+  | .mk with_ table sets where_ orders limit returning from_ =>
+    let hasFrom := !TRefList.isNil from_
+    opt with_.isSome .with_ (rOptWith d with_) ++
+    [(.head, [S "UPDATE "] ++ rOptTable d table)] ++
+    opt (d == .mysql && hasFrom) .on (rUpdateJoin d (rHolder d "ON" where_) from_) ++
+    [(.set, [S " SET "] ++ rSets d (if d == .mysql && hasFrom then updateQual table else none) true sets)] ++
+    opt (!(d == .mysql) && hasFrom) .from_ ([S " FROM "] ++ rTRefs d true from_) ++
+    opt (!(d == .mysql && hasFrom) && holderPresent where_) .where_ (rHolder d "WHERE" where_) ++
+    opt (returningPresent d returning) .returning (rReturning d returning) ++
+    opt (!OrderList.isNil orders) .orderBy ([S " ORDER BY "] ++ rOrders d true orders) ++
+    opt limit.isSome .limit (rLimit " LIMIT " limit)
+
+theorem updateJoin_nil (d : Backend) (on : Pieces) : rUpdateJoin d on .nil = [] := by simp [rUpdateJoin]
+
+/-- the rendering of an UPDATE is the concatenation of its clause list -/
+theorem rUpdate_eq_clauses (d : Backend) (u : Update) : rUpdate d u = flat (updateClauses d u) := by
+  obtain ⟨with_, table, sets, where_, orders, limit, returning, from_⟩ := u
+  simp only [updateClauses, List.append_assoc, flat_opt, flat_opt_last, flat_cons, with_opt, limit_opt, returning_opt, rUpdate]
+  cases hf : TRefList.isNil from_ <;> cases hm : (d == Backend.mysql) <;> cases OrderList.isNil orders <;>
+    simp [holder_opt] <;> (cases from_ <;> simp_all [TRefList.isNil, rUpdateJoin])
+
+/-- the clause sequence of UPDATE: `UPDATE t [JOIN .. ON ..] SET .. [FROM ..] [WHERE ..] [RETURNING ..] [ORDER BY ..] [LIMIT ..]`
+(MySQL has the join form and no FROM / RETURNING; Postgres and SQLite have FROM after SET) -/
+def updateGrammar : List Clause := [.with_, .head, .on, .set, .from_, .where_, .returning, .orderBy, .limit]
+
+/-- UPDATE in grammar order: the tags are a sub-sequence of `updateGrammar` (each clause at most once, in that order) -/
+theorem update_clause_order (d : Backend) (u : Update) : ((updateClauses d u).map (·.1)).Sublist updateGrammar := by
+  obtain ⟨with_, table, sets, where_, orders, limit, returning, from_⟩ := u
+  simp only [updateClauses, List.map_append]
+  show List.Sublist _ ([Clause.with_] ++ [Clause.head] ++ [Clause.on] ++ [Clause.set] ++ [Clause.from_] ++ [Clause.where_] ++
+    [Clause.returning] ++ [Clause.orderBy] ++ [Clause.limit])
+  repeat (first | exact opt_sublist _ _ _ | exact List.Sublist.refl _ | apply List.Sublist.append)
+
+/-- the clauses of a DELETE -/
+def deleteClauses (d : Backend) : Delete → List (Clause × Pieces)
+  | .mk with_ table where_ orders limit returning =>
+    opt with_.isSome .with_ (rOptWith d with_) ++
+    [(.head, [S "DELETE "] ++ rOptTRef d "FROM " table)] ++
+    opt (holderPresent where_) .where_ (rHolder d "WHERE" where_) ++
+    opt (returningPresent d returning) .returning (rReturning d returning) ++
+    opt (!OrderList.isNil orders) .orderBy ([S " ORDER BY "] ++ rOrders d true orders) ++
+    opt limit.isSome .limit (rLimit " LIMIT " limit)
+
+theorem rDelete_eq_clauses (d : Backend) (x : Delete) : rDelete d x = flat (deleteClauses d x) := by
+  obtain ⟨with_, table, where_, orders, limit, returning⟩ := x
+  simp only [deleteClauses, List.append_assoc, flat_opt, flat_opt_last, flat_cons, with_opt, limit_opt, returning_opt, holder_opt, rDelete]
+  cases OrderList.isNil orders <;> simp
+
+theorem delete_clause_order (d : Backend) (x : Delete) : ((deleteClauses d x).map (·.1.rank)).Pairwise (· < ·) := by
+  obtain ⟨with_, table, where_, orders, limit, returning⟩ := x
+  have hsub : ((deleteClauses d (.mk with_ table where_ orders limit returning)).map (·.1)).Sublist
+      [Clause.with_, .head, .where_, .returning, .orderBy, .limit] := by
+    simp only [deleteClauses, List.map_append]
+    show List.Sublist _ ([Clause.with_] ++ [Clause.head] ++ [Clause.where_] ++ [Clause.returning] ++ [Clause.orderBy] ++ [Clause.limit])
+    repeat (first | exact opt_sublist _ _ _ | exact List.Sublist.refl _ | apply List.Sublist.append)
+  have hmap := List.Sublist.map Clause.rank hsub
+  rw [List.map_map] at hmap
+  exact List.Pairwise.sublist hmap (by decide)
+
+/-- the clauses of an INSERT: WITH, INSERT INTO t, the source (column list with VALUES / SELECT, or DEFAULT VALUES),
+the conflict clause, RETURNING (`set` tags the source, `on` the conflict clause) -/
+def insertClauses (d : Backend) : Insert → List (Clause × Pieces)
+  | .mk with_ replace table columns source onConflict returning defaultValues =>
+    opt with_.isSome .with_ (rOptWith d with_) ++
+    [(.head, [S (if replace then "REPLACE" else "INSERT")] ++ rOptTRef d " INTO " table)] ++
+    [(.set, if defaultValues.isSome && columns.isEmpty && InsSource.isNone source then
+        [S " "] ++ (if d == .sqlite then [S "DEFAULT VALUES"] else [S "VALUES "] ++ rDefaultRows d true (defaultValues.getD 0))
+      else [S " ", S "("] ++ rIdents true columns ++ [S ")"] ++ rSource d source)] ++
+    opt onConflict.isSome .on (rOptOnConflict d onConflict) ++
+    opt (returningPresent d returning) .returning (rReturning d returning)
+
+theorem onconflict_opt (d : Backend) (o : Option OnConflict) : (if o.isSome then rOptOnConflict d o else []) = rOptOnConflict d o := by
+  cases o <;> simp [rOptOnConflict]
+
+theorem rInsert_eq_clauses (d : Backend) (x : Insert) : rInsert d x = flat (insertClauses d x) := by
+  obtain ⟨with_, replace, table, columns, source, onConflict, returning, defaultValues⟩ := x
+  simp only [insertClauses, List.append_assoc, flat_opt, flat_opt_last, flat_cons, with_opt, returning_opt, onconflict_opt, rInsert]
+
+/-- INSERT: WITH, INSERT INTO, source, conflict clause, RETURNING — the conflict clause after the source and
+before RETURNING in every dialect that has them -/
+theorem insert_clause_tags (d : Backend) (x : Insert) :
+    ((insertClauses d x).map (·.1)).Sublist [Clause.with_, .head, .set, .on, .returning] := by
+  obtain ⟨with_, replace, table, columns, source, onConflict, returning, defaultValues⟩ := x
+  simp only [insertClauses, List.map_append]
+  show List.Sublist _ ([Clause.with_] ++ [Clause.head] ++ [Clause.set] ++ [Clause.on] ++ [Clause.returning])
+  repeat (first | exact opt_sublist _ _ _ | exact List.Sublist.refl _ | apply List.Sublist.append)
 
 /-! ## parentheses -/
 
